@@ -270,6 +270,16 @@ static void tolerance_substitution(const Library& ref, const Library& got, int64
             }
             outl.clear();
         }
+        for (uint64_t i = 0; i < rc->robustpath_array.count; i++) {
+            if (rc->robustpath_array[i]->simple_path) continue;
+            Array<Polygon*> outl = {};
+            rc->robustpath_array[i]->to_polygons(false, 0, outl);
+            for (uint64_t k = 0; k < outl.count; k++) {
+                refp.push_back(outl[k]);
+                owned.push_back(outl[k]);
+            }
+            outl.clear();
+        }
         struct Cleanup {
             std::vector<Polygon*>& v;
             ~Cleanup() {
@@ -346,6 +356,32 @@ static Dump expected_with_circles(const ALib& L, const Built& b) {
             ap.pts = grid_points(b.lib.cell_array[ci]->polygon_array[i]->point_array, sc);
             ap.circle = false;
         }
+    // non-simple RobustPaths: the expected polygons are the outlines gdstk computes, rounded to the grid
+    for (size_t ci = 0; ci < L2.cells.size(); ci++) {
+        std::vector<APath> kept;
+        size_t ri = 0;
+        for (auto& ap : L2.cells[ci].paths) {
+            if (!ap.robust) { kept.push_back(ap); continue; }
+            RobustPath* rp = b.lib.cell_array[ci]->robustpath_array[ri++];
+            if (!ap.outline) { kept.push_back(ap); continue; }
+            Array<Polygon*> outl = {};
+            rp->to_polygons(false, 0, outl);
+            for (uint64_t k = 0; k < outl.count; k++) {
+                APoly q;
+                q.layer = get_layer(outl[k]->tag);
+                q.type = get_type(outl[k]->tag);
+                q.pts = grid_points(outl[k]->point_array, sc);
+                q.rep = ap.rep;
+                q.props = ap.props;
+                q.shape = "robust-outline";
+                L2.cells[ci].polys.push_back(q);
+                outl[k]->clear();
+                free_allocation(outl[k]);
+            }
+            outl.clear();
+        }
+        L2.cells[ci].paths = kept;
+    }
     return expected_dump(L2);
 }
 
